@@ -325,12 +325,12 @@ func c04RemoveUnlisted(a *An, tf *tableFacts, rm *ssa.Function) {
 
 // addFlowFacts: the syscall, the descriptor it returns, and the entry currently listed under the path.
 type addFlowFacts struct {
-	w       *Walker
-	add     *Visit
-	wdPath  string
-	ep      string // path (as used in atoms) of the listed entry ("existing"), "" if the flow has none
-	stores  []storedEdge
-	succ    func(Lit) bool
+	w      *Walker
+	add    *Visit
+	wdPath string
+	ep     string // path (as used in atoms) of the listed entry ("existing"), "" if the flow has none
+	stores []storedEdge
+	succ   func(Lit) bool
 }
 
 type storedEdge struct {
